@@ -8,7 +8,7 @@
    harness (every single schema fault at every JSON path, arbitrary bytes, a watchdog), not proved. *)
 From Coq Require Import Lia.
 From Verif Require Import Model.Base Model.Node Model.Graph Model.Match Model.Sniff Model.Spdx Model.Cdx Gen.Tables
-  Model.Parse Proofs.GraphFacts Proofs.SniffFacts Proofs.SpdxFacts Proofs.CdxFacts Proofs.ParseFacts.
+  Model.Parse Proofs.GraphFacts Proofs.SniffFacts Proofs.SpdxFacts Proofs.CdxFacts Proofs.ParseFacts Proofs.LicFacts.
 Open Scope list_scope.
 
 (* reader.ParseStream as composed in Model/Parse.v: detect, dispatch to the decoder (a parameter),
@@ -44,6 +44,13 @@ Theorem C04_licence_entries_without_object : forall ls,
   lic_string ({| cl_expression := ""; cl_has_license := false; cl_id := "whatever" |} :: ls) = lic_string ls.
 Proof. exact lic_entries_without_object. Qed.
 Print Assumptions C04_licence_entries_without_object.
+
+(* ... but NOT the concluded-licence string (known finding K14): n + 1 licence entries give an
+   expression of at least 2^n characters, so no polynomial in the input size bounds the output *)
+Theorem C04_licence_expression_size_refuted : forall n,
+  (2 ^ n <= String.length (lic_string (repeat lic_entry (S n))))%nat /\ lic_string (repeat lic_entry (S n)) <> "".
+Proof. exact lic_string_exponential. Qed.
+Print Assumptions C04_licence_expression_size_refuted.
 
 Example C04_example :
   let b := {| b_serial := ""; b_version := 0; b_has_metadata := false; b_meta_comp := None; b_lifecycles := [];
